@@ -118,8 +118,12 @@ func c19(w *World) {
 		router.HandleIncoming(mt, func(b []byte) bool {
 			simrt.Yield("harness.inHandler")
 			d.calls++
-			log = append(log, hcall{ev: w.Sched.NextSeq(), handler: d.id, dir: "in", all: d.all, typ: MsgType(b), bytes: append([]byte(nil), b...)})
-			return true
+			ref := d.refuse[d.calls]
+			if ref {
+				w.Fault("handler_refused_incoming")
+			}
+			log = append(log, hcall{ev: w.Sched.NextSeq(), handler: d.id, dir: "in", all: d.all, typ: MsgType(b), bytes: append([]byte(nil), b...), refused: ref})
+			return !ref
 		})
 	}
 	nAllOut, nTypOut := w.W.Draw(4), w.W.Draw(5)
@@ -137,12 +141,10 @@ func c19(w *World) {
 	inTypes := []string{"0", "1", "D", "V"}
 	for i := 0; i < nAllIn; i++ {
 		d := mk("in", true, "")
-		d.refuse = map[int]bool{}
 		regs = append(regs, func() { regIn(d) })
 	}
 	for i := 0; i < nTypIn; i++ {
 		d := mk("in", false, inTypes[w.W.Draw(len(inTypes))])
-		d.refuse = map[int]bool{}
 		regs = append(regs, func() { regIn(d) })
 	}
 	// register in a drawn order
@@ -334,7 +336,9 @@ func c19(w *World) {
 			}
 		}
 	}
-	// (e) inbound: all-types handlers, then the type's handlers, each once, in registration order
+	// (e) inbound: all-types handlers in registration order (the traversal of one list stops at a
+	// handler that returns false, as documented), then — whatever the all-types handlers answered —
+	// the handlers of the message's own type, in registration order
 	for _, raw := range inbound {
 		typ := MsgType(raw)
 		var calls []hcall
@@ -343,38 +347,68 @@ func c19(w *World) {
 				calls = append(calls, c)
 			}
 		}
-		want := 0
-		for _, d := range defs {
-			if d.dir == "in" && (d.all || d.typ == typ) {
-				want++
+		var wantAll, wantTyp []int
+		for _, list := range []bool{true, false} {
+			var ids []int
+			for _, d := range defs {
+				if d.dir == "in" && d.all == list && (list || d.typ == typ) {
+					ids = append(ids, d.id)
+				}
+			}
+			// in registration order
+			for i := 0; i < len(ids); i++ {
+				for j := i + 1; j < len(ids); j++ {
+					if regPos[ids[j]] < regPos[ids[i]] {
+						ids[i], ids[j] = ids[j], ids[i]
+					}
+				}
+			}
+			if list {
+				wantAll = ids
+			} else {
+				wantTyp = ids
 			}
 		}
-		if len(calls) != want {
-			w.Violate("incoming-handler-skipped", typ, fmt.Sprintf("inbound %s was offered to %d of %d registered handlers", typ, len(calls), want))
-			continue
-		}
+		// expected call sequence given the refusals that were actually returned
+		var gotAll, gotTyp []hcall
 		sawType := false
-		lastAll, lastTyp := -1, -1
 		for _, c := range calls {
-			p := regPos[c.handler]
 			if c.all {
 				if sawType {
 					w.Violate("incoming-handler-order", "all-after-type", "an all-types incoming handler ran after a type-specific one")
 				}
-				if p < lastAll {
-					w.Violate("incoming-handler-order", "all-registration-order", "all-types incoming handlers ran out of registration order")
-				}
-				lastAll = p
+				gotAll = append(gotAll, c)
 			} else {
 				sawType = true
-				if p < lastTyp {
-					w.Violate("incoming-handler-order", "type-registration-order", "type incoming handlers ran out of registration order")
-				}
-				lastTyp = p
+				gotTyp = append(gotTyp, c)
 			}
 		}
-		if want > 0 {
+		check := func(name string, want []int, got []hcall) {
+			for i, c := range got {
+				if i >= len(want) || want[i] != c.handler {
+					w.Violate("incoming-handler-order", name+"-registration-order", fmt.Sprintf("inbound %s: %s incoming handlers ran out of registration order", typ, name))
+					return
+				}
+				if c.refused {
+					if i != len(got)-1 {
+						w.Violate("incoming-handler-after-refusal", name, fmt.Sprintf("inbound %s: %s handlers kept running after one returned false", typ, name))
+					}
+					return
+				}
+			}
+			if len(got) != len(want) {
+				w.Violate("incoming-handler-skipped", name+"/"+typ, fmt.Sprintf("inbound %s was offered to %d of %d registered %s handlers although none of them returned false", typ, len(got), len(want), name))
+			}
+		}
+		check("all-types", wantAll, gotAll)
+		check("type", wantTyp, gotTyp)
+		if len(wantAll)+len(wantTyp) > 0 {
 			w.Probe("inbound_dispatch_checked")
+		}
+		for _, c := range gotAll {
+			if c.refused && len(wantTyp) > 0 {
+				w.Probe("all_types_refusal_then_type_handlers")
+			}
 		}
 	}
 	if len(perMsg) > 0 {
